@@ -35,7 +35,7 @@ import (
 
 const (
 	c11Col     = "ucol"
-	c11NCorpus = 7
+	c11NCorpus = 8
 )
 
 type c11LKey struct {
@@ -262,7 +262,7 @@ func (l *c11Lim) block(now int64) {
 
 // ------------------------------------------------------------------------------------------------
 // corpus: the witnesses of the repaired defects (0-2) and the automatic-fill scenarios that the thorough
-// tier found or that belong to C10 (3-6)
+// tier found or that belong to C10 (3-7)
 func c11LimitCorpus(t *testing.T, f *c11Fix, tr *tracer, ci int) {
 	rich := [][3]int64{{10000000, 10000000, 10000000}, {10000000, 10000000, 10000000}}
 	zero := sdk.ZeroDec()
@@ -341,6 +341,19 @@ func c11LimitCorpus(t *testing.T, f *c11Fix, tr *tracer, ci int) {
 		l.cancel(1, l.col, f.harbor, 5)
 		l.block(c11T0 + 2580)
 		l.cancel(0, l.col, f.harbor, 5)
+	case 7: // case 3 with an app reserve that cannot cover the shortfall (1 765 200): the closing closure
+		// fails atomically (before 4c7737c it went through and paid the initiator out of the module's
+		// other coins: the base and bidder 1's deposit)
+		l := c11NewLim(t, f, tr, ci, 2, zero, zero, rich, [3]int64{5000000, 0, 0},
+			[]c11AucSpec{{debtAsset: f.harbor, debt: 3000000, fee: 120000, collateral: 1500000, resrv: 1000}})
+		l.deposit(0, l.col, f.harbor, 9, 0, sdk.NewInt(1250000))
+		l.deposit(1, l.col, f.harbor, 0, 0, sdk.NewInt(2000000))
+		l.block(c11T0 + 2968)
+		l.deposit(0, l.col, f.harbor, 9, 0, sdk.NewInt(1000000))
+		l.block(c11T0 + 2968)
+		l.block(c11T0 + 2969)
+		l.cancel(0, l.col, f.harbor, 9)
+		l.cancel(1, l.col, f.harbor, 0)
 	}
 }
 
